@@ -680,17 +680,16 @@ def itriOf (ql : List V3) (t : Tri) : ITri := (cornerOf ql t.p0, cornerOf ql t.p
 def sortBySide (its : List ITri) : List ITri :=
   [4, 5, 1, 0, 2, 3].flatMap (fun s => its.filter (fun t => t.idxs.all (fun i => (corners s).contains i)))
 
-/-- search for a numbering for which the view is clear: the 48 relabellings of the input numbering first, then
-    (for inputs that are not numbered like a block) the model's own answer and its mirror image.  Only the
-    witness is searched here; what it is worth is `clearOk` (theorem `T_C18_clear_check`). -/
+/-- search for a numbering for which the view is clear.  By `T_C18_clear_view` a clear view makes `reorient` return
+    `fixHand Q.toList`, so the only candidates are the model's own answer and its mirror image; a rejected input is
+    never clear.  Only the witness is searched here; what it is worth is `clearOk` (theorem `T_C18_clear_check`). -/
 def clearSearch (pts : List V3) (sim : List ITri) (obs ceil : V3) : Option (List V3) :=
-  let own := match reorient pts sim obs ceil with
-    | .ok out => [out, swapLR out]
-    | .error _ => []
-  let cands := sym48.map (fun l => l.map (fun i => pts.getD i V3.zero)) ++ own
-  cands.findSome? (fun ql =>
-    let ix := sortBySide ((orientedTris pts sim).map (itriOf ql))
-    if clearOk pts sim obs ceil ql ix then some (fixHand ql) else none)
+  match reorient pts sim obs ceil with
+  | .error _ => none
+  | .ok out =>
+    [out, swapLR out].findSome? (fun ql =>
+      let ix := sortBySide ((orientedTris pts sim).map (itriOf ql))
+      if clearOk pts sim obs ceil ql ix then some (fixHand ql) else none)
 
 /-! ## line protocol -/
 
